@@ -772,7 +772,11 @@ where
             match ch.try_recv() {
                 Ok(Hit(hash, entry, timestamp)) => {
                     freq.increment(hash);
-                    entry.set_last_accessed(timestamp);
+                    // Apply the recorded access time only if it is later than the
+                    // current one (an update may have set a later one already).
+                    if entry.last_accessed().map(|la| la < timestamp).unwrap_or(true) {
+                        entry.set_last_accessed(timestamp);
+                    }
                     if entry.is_admitted() {
                         deqs.move_to_back_ao(&entry);
                     }
